@@ -157,9 +157,12 @@ Qed.
 Theorem cross_runtime_object_rejected : forall r rt, rt <> r -> to_value r (GObject rt) = TVTypeError.
 Proof. intros r rt H. simpl. destruct (Nat.eqb rt r) eqn:E; [apply Nat.eqb_eq in E; contradiction|reflexivity]. Qed.
 
-(* open finding C16-N2: a value passed directly as an argument of another runtime's Callable is not checked *)
-Lemma call_arg_refuted : exists r g, call_arg_impl r g <> to_value r g.
-Proof. exists 1, (GObject 0). discriminate. Qed.
+Theorem cross_runtime_object_rejected_call : forall r rt, rt <> r -> call_arg_impl r (GObject rt) = TVTypeError.
+Proof. intros r rt H. simpl. destruct (Nat.eqb rt r) eqn:E; [apply Nat.eqb_eq in E; contradiction|reflexivity]. Qed.
+
+(* the direct path agrees with toValue on every value that can be passed directly (a nil *Object cannot) *)
+Theorem call_arg_agrees : forall r g, g <> GNilObject -> call_arg_impl r g = to_value r g.
+Proof. intros r g H. destruct g; try reflexivity. contradiction. Qed.
 
 Theorem same_runtime_or_primitive_accepted : forall r g,
   (forall rt, g = GObject rt -> rt = r) -> g <> GNilObject -> to_value r g = TVOk g.
